@@ -1,5 +1,31 @@
-"""C17 — engine `app` (see appcommon.py / apporacles.py and coq/Props/C17.v)."""
+"""C17 — engine `app` (see appcommon.py / apporacles.py and coq/Props/C17.v), plus the Query/CheckTx/Simulate-interleaved
+replay of every history: read-only traffic between two governance transactions must not change what the second one does."""
+import os
 import appcommon, apporacles
 
+
+def gov_under_readonly_traffic(v, out, hists, cov):
+    byid = {h["id"]: h for h in hists}
+    n = bad = 0
+    for l in open(os.path.join(out, "app.det")):
+        hid, variant, rest = l.rstrip("\n").split(" ", 2)
+        if variant != "interleaved":
+            continue
+        n += 1
+        if rest == "same" or not rest.startswith("DIVERGED op="):
+            continue
+        h = byid.get(hid)
+        idx = int(rest.split(" ")[1].split("=")[1])
+        op = h["ops"][idx][0] if h and idx < len(h["ops"]) else ""
+        if op.split(" ")[0] == "TX" and op.split(" ")[1].split(":")[0] in ("param", "dao", "upgrade"):
+            bad += 1
+            v.violation({"engine": "app", "kind": "governance-depends-on-read-only-traffic"},
+                        "with ACL / parameter / validator queries interleaved, governance transaction `%s` of history %s is answered differently: %s"
+                        % (op[:120], hid, rest[:300]),
+                        {"history": (h["header"] + [o[0] for o in h["ops"][:idx + 1]] + ["E"]) if h else [], "difference": rest})
+    cov["interleaved_replays"] = n
+    cov["interleaved_replays_with_a_governance_tx_answered_differently"] = bad
+
+
 def run(a):
-    return appcommon.run(a, "C17", set("A"), apporacles.c17, "governance rule violated")
+    return appcommon.run(a, "C17", set("A"), apporacles.c17, "governance rule violated", extra=gov_under_readonly_traffic)
